@@ -12,6 +12,8 @@ Verdicts
                      afterwards, whatever faults are injected (incl. a failing statx/openat)
   V3 ack=>durable    whenever an export run exits 0 on an absent F, F imports to the same answers
                      (an export that swallowed a write error would acknowledge a torn file)
+  V4 import fault    a read of the export that fails (EIO/EAGAIN; EINTR is retried by std) makes the
+                     import fail or print the same answers, never other answers
 
 usage: clisim.py run --tier T --seed N [--runs N] [--budget S] [--workers N] --partial out.json
                      [--known file] [--replays dir] [--work dir]
@@ -65,6 +67,10 @@ def gen_case(seed, i, thorough):
     adf = gen_adf(r)
     flags = [f for f in ["--grd", "--com", "--stm"] if r.random() < 0.7] or ["--grd"]
     x = r.random()
+    if x < 0.10:
+        # fault while the exported file is read back (import side)
+        return {"adf": adf, "flags": flags, "target": "absent", "fault": None,
+                "import_fault": {"syscall": "read", "kind": r.choice(["error=EIO", "error=EINTR", "error=EAGAIN"]), "when": r.randint(1, 3)}}
     if x < 0.25:
         return {"adf": adf, "flags": flags, "target": "absent", "fault": None}
     if x < 0.45:
@@ -153,8 +159,24 @@ def execute(case, workdir):
                 # V1 / V3: an acknowledged export imports to the same answers
                 if after[0] != "file":
                     return ({"oracle": "V3-ack-durable", "class": "acknowledged-but-no-file", "key": "V3/acknowledged-but-no-file", "message": "export exited 0 (fault %s) but F is %s" % (fl, after[0])}, info)
-                rc2, out2, err2 = run_bin(["--lib", "naive", "--import"] + case["flags"] + ["F.json"], workdir)
-                if rc2 != 0 or out2 != direct:
+                ifl = case.get("import_fault")
+                istrace = None
+                if ifl:
+                    istrace = ["-e", "trace=read", "-P", "F.json", "-P", F, "-e", "inject=read:%s:when=%d" % (ifl["kind"], ifl["when"])]
+                rc2, out2, err2 = run_bin(["--lib", "naive", "--import"] + case["flags"] + ["F.json"], workdir, istrace)
+                if ifl:
+                    try:
+                        info["import_injected"] = "(INJECTED)" in open(os.path.join(workdir, "strace.out")).read()
+                    except OSError:
+                        info["import_injected"] = False
+                    # V4: a failing read of the export may make the import fail, never print other answers
+                    if rc2 == 0 and out2 != direct:
+                        return ({"oracle": "V4-import-read-fault", "class": "wrong-answers", "key": "V4/wrong-answers",
+                                 "message": "import with %s exited 0 and printed %r, direct run printed %r" % (ifl, out2, direct)}, info)
+                    if rc2 != 0 and out2.strip():
+                        return ({"oracle": "V4-import-read-fault", "class": "answers-before-failure", "key": "V4/answers-before-failure",
+                                 "message": "import with %s exited %s after printing %r" % (ifl, rc2, out2)}, info)
+                elif rc2 != 0 or out2 != direct:
                     orc = "V3-ack-durable" if fl else "V1-round-trip"
                     return ({"oracle": orc, "class": "import-differs" if rc2 == 0 else "import-failed", "key": "%s/import" % orc[:2],
                              "message": "export exited 0 (fault %s); import exited %s and printed %r, direct run printed %r; stderr %s" % (fl, rc2, out2, direct, err2[-200:])}, info)
@@ -320,11 +342,16 @@ def cmd_run(args):
             inc(name + "_configured")
             if info["injected"]:
                 inc(name + "_fired")
+        if case.get("import_fault"):
+            nm = "fault_import_read_%s" % case["import_fault"]["kind"].replace("=", "_")
+            inc(nm + "_configured")
+            if info.get("import_injected"):
+                inc(nm + "_fired")
         if info.get("acked"):
             inc("exports_acknowledged")
         if info.get("torn_unacked"):
             inc("torn_exports_not_acknowledged")
-        nt = (fl is not None and info["injected"]) or case["target"] != "absent"
+        nt = (fl is not None and info["injected"]) or case["target"] != "absent" or info.get("import_injected", False)
         if nt:
             nontrivial += 1
             distinct.add(json.dumps(case, sort_keys=True))
